@@ -141,11 +141,19 @@ def translate_source():
     h.update(open(os.path.join(ROOT, "tools/cxx2coq.py"), "rb").read())
     h.update(open(os.path.join(ROOT, "tools/cxxvec2coq.py"), "rb").read())
     h.update(open(os.path.join(ROOT, "tools/cxxloop2coq.py"), "rb").read())
+    h.update(open(os.path.join(ROOT, "tools/cxxgmp2coq.py"), "rb").read())
     tag = "(* source-hash %s *)" % h.hexdigest()
-    dst = os.path.join(COQ, "gen/Gen.v"); dstv = os.path.join(COQ, "gen/GenVec.v"); dstl = os.path.join(COQ, "gen/GenLoop.v")
+    dst = os.path.join(COQ, "gen/Gen.v"); dstv = os.path.join(COQ, "gen/GenVec.v"); dstl = os.path.join(COQ, "gen/GenLoop.v"); dstg = os.path.join(COQ, "gen/GenGmp.v")
     with Lock("translate_source"):
-        if all(os.path.exists(d) and tag in open(d).read(200) for d in (dst, dstv, dstl)):
+        if all(os.path.exists(d) and tag in open(d).read(200) for d in (dst, dstv, dstl, dstg)):
             return True, "cached"
+        # the big-integer side (gmp.hpp): independent of the other translations
+        tmpg = dstg + ".tmp"
+        rcg, outg = sh([sys.executable, os.path.join(ROOT, "tools/cxxgmp2coq.py"), REPO, tmpg], timeout=900)
+        if rcg != 0 or not os.path.exists(tmpg):
+            open(dstg, "w").write(tag + "\n(* translation failed: %s *)\n" % outg[-500:].replace("*)", "* )"))
+        else:
+            open(dstg, "w").write(tag + "\n" + open(tmpg).read()); os.remove(tmpg)
         # the SSE / AVX2 kernels
         tmpv = dstv + ".tmp"
         rcv, outv = sh([sys.executable, os.path.join(ROOT, "tools/cxxvec2coq.py"), REPO, tmpv], timeout=900)
@@ -189,9 +197,9 @@ def read_params():
 
 # ---------------------------------------------------------------- prove
 def coq_makefile():
-    if not all(os.path.exists(os.path.join(COQ, g)) for g in ("gen/Gen.v", "gen/GenVec.v", "gen/GenLoop.v")):
+    if not all(os.path.exists(os.path.join(COQ, g)) for g in ("gen/Gen.v", "gen/GenVec.v", "gen/GenLoop.v", "gen/GenGmp.v")):
         translate_source()
-    vs = sorted(f for f in os.listdir(COQ) if f.endswith(".v") and f != "Extract.v") + ["gen/Params.v", "gen/Gen.v", "gen/GenVec.v", "gen/GenLoop.v"]
+    vs = sorted(f for f in os.listdir(COQ) if f.endswith(".v") and f != "Extract.v") + ["gen/Params.v", "gen/Gen.v", "gen/GenVec.v", "gen/GenLoop.v", "gen/GenGmp.v"]
     txt = "-Q . NTT\n" + "\n".join(vs) + "\n"
     p = os.path.join(COQ, "_CoqProject")
     if not os.path.exists(p) or open(p).read() != txt or not os.path.exists(os.path.join(COQ, "Makefile")):
